@@ -9,6 +9,9 @@ from .C02 import keq, canon, rowkey
 ID = 'C11'
 TITLE = 'listby/unlist, groupby/ungroup, pivot/unpivot lossless'
 LEVEL = 'exploration'
+TECHNIQUE = 'runtime monitoring: reference model on row lists with unique ids (groups by == on key tuples, pivot cells, unpivot round trip)'
+LEVEL_TEXT = 'Held on the tables explored with mixed-type key columns and heavy duplication. A check says held on K observed executions, never verified.'
+LEVEL_NOTE = "Trusted: ordering comparator is the real cmp (C07); NaN keys are C02/C07's."
 RULE = ('random tables (0-10 rows, 2-5 columns, heavy key duplication, mixed-type key columns None/int/float/str/datetime, NaN only in non-key cells), any '
         'non-empty proper subset of columns as keys; pivot with str/int y labels, z never None, agg in {None, first, last, len}; '
         'non-trivial = >=1 key with >=2 rows and >=2 distinct keys; distinct = canonical hash')
